@@ -53,6 +53,8 @@ func NewHTTP2HTTPSPlugin(_ PluginContext, options v1.ClientPluginOptions) (Plugi
 
 	tr := &http.Transport{
 		TLSClientConfig: &tls.Config{InsecureSkipVerify: true},
+		// don't add "Accept-Encoding: gzip" to requests and don't decode responses
+		DisableCompression: true,
 	}
 
 	rp := &httputil.ReverseProxy{
